@@ -1056,9 +1056,10 @@ func ruleR54(c *Ctx) {
 				return
 			}
 			tv, has := info.Types[be.Y]
-			if !has || tv.Value == nil || tv.Value.ExactString() != "0" {
+			if !has || tv.Value == nil {
 				return
 			}
+			cmpWith := tv.Value.ExactString()
 			id, ok := ast.Unparen(be.X).(*ast.Ident)
 			if !ok {
 				return
@@ -1086,6 +1087,16 @@ func ruleR54(c *Ctx) {
 			}
 			n++
 			key := fmt.Sprintf("%s prunes on a comparison of non-empty byte strings", u.Name)
+			if cmpWith != "0" {
+				c.r.bad("R54", key, m.pos(be.Pos()), "the subtree is skipped when the node's path and the bounds' common prefix share exactly "+cmpWith+" byte(s): keys below it that share more, or all of the window, lie within the bounds and are dropped (only \"no byte in common\" rules a subtree out)", props...)
+				return
+			}
+			if len(call.Args) >= 3 {
+				if sv, ok := info.Types[call.Args[2]]; ok && sv.Value != nil && sv.Value.ExactString() != "0" {
+					c.r.bad("R54", key, m.pos(call.Pos()), "the comparison starts at byte "+sv.Value.ExactString()+" of the two strings: a difference there says nothing about the first byte, and a subtree whose path agrees with the bounds is skipped", props...)
+					return
+				}
+			}
 			// geOne: e >= 1 is provable here
 			geOne := func(e ast.Expr) bool {
 				if tv, ok := info.Types[e]; ok && tv.Value != nil {
@@ -1152,4 +1163,104 @@ func ruleR54(c *Ctx) {
 		})
 	}
 	c.r.note("R54: %d pruning comparisons examined", n)
+}
+
+// R55 SLOTARG (C16, C12, C11, C01) – a function that may relink the slot it is given (a method with
+// a *nodeRef receiver, a *nodeRef parameter: addChild / deleteChild and their dispatchers store the
+// grown, shrunk or collapsed node through it) is handed a slot OF THE TREE – a *nodeRef variable,
+// &t.root, the address of a child slot of a node – never the address of a local copy of a
+// reference (`n := *ref; n.deleteChild(b)`): the replacement would be stored in the copy, the
+// tree would keep pointing at the old node, which is cleared and pooled at the same time and
+// handed to the next tree that grows.
+func ruleR55(c *Ctx) {
+	m := c.m
+	info := m.Info
+	props := []string{"C16", "C12", "C11", "C01"}
+	n := 0
+	// functions that store through a *nodeRef they receive (directly or by passing it on)
+	writesSlot := func(f *types.Func) map[int]bool {
+		out := map[int]bool{}
+		if f == nil || f.Pkg() != m.Pkg {
+			return out
+		}
+		sig, _ := f.Type().(*types.Signature)
+		if sig == nil {
+			return out
+		}
+		w := c.e.writesThrough(f)
+		isSlotT := func(t types.Type) bool {
+			p, ok := t.(*types.Pointer)
+			return ok && c.isNodeRefType(p.Elem())
+		}
+		if sig.Recv() != nil && isSlotT(sig.Recv().Type()) && w[-1] {
+			out[-1] = true
+		}
+		for i := 0; i < sig.Params().Len(); i++ {
+			if isSlotT(sig.Params().At(i).Type()) && w[i] {
+				out[i] = true
+			}
+		}
+		return out
+	}
+	localCopy := func(u *FuncUnit, e ast.Expr) *types.Var {
+		e = ast.Unparen(e)
+		if ue, ok := e.(*ast.UnaryExpr); ok && ue.Op == token.AND {
+			e = ast.Unparen(ue.X)
+		} else if t := info.TypeOf(e); t != nil {
+			if _, isPtr := t.(*types.Pointer); isPtr {
+				return nil // a *nodeRef value: a slot handed down
+			}
+		}
+		id, ok := e.(*ast.Ident)
+		if !ok {
+			return nil // a field or an element: memory of the tree
+		}
+		v, _ := info.ObjectOf(id).(*types.Var)
+		if v == nil || v.IsField() || !c.isNodeRefType(v.Type()) || v.Parent() == m.Pkg.Scope() {
+			return nil
+		}
+		return v
+	}
+	for _, u := range c.sortedUnits() {
+		if u.Body == nil {
+			continue
+		}
+		ast.Inspect(u.Body, func(x ast.Node) bool {
+			if lit, ok := x.(*ast.FuncLit); ok && ast.Node(lit) != ast.Node(u.Lit) {
+				return false
+			}
+			call, ok := x.(*ast.CallExpr)
+			if !ok {
+				return true
+			}
+			f := m.staticCallee(call)
+			ws := writesSlot(f)
+			if len(ws) == 0 {
+				return true
+			}
+			for idx := range ws {
+				var arg ast.Expr
+				if idx == -1 {
+					if sel, ok := ast.Unparen(call.Fun).(*ast.SelectorExpr); ok {
+						arg = sel.X
+					}
+				} else if idx < len(call.Args) {
+					arg = call.Args[idx]
+				}
+				if arg == nil {
+					continue
+				}
+				n++
+				key := fmt.Sprintf("%s hands %s a slot of the tree", u.Name, f.Name())
+				if v := localCopy(u, arg); v != nil {
+					c.r.bad("R55", key, m.pos(call.Pos()), fmt.Sprintf("%s stores the replacement node through the slot it is given, and here that slot is the address of the local copy %s: when the node changes size class or collapses, the tree keeps pointing at the old node – which is cleared and put back into the pool shared by all trees", f.Name(), v.Name()), props...)
+				} else {
+					c.r.ok("R55", key, m.pos(call.Pos()), "a *nodeRef handed down, or the address of a field / child slot", props...)
+				}
+			}
+			return true
+		})
+	}
+	c.r.note("R55: %d slot arguments of relinking functions", n)
+	c.r.floor("R55", 10, "slot arguments", "C11")
 }
